@@ -1,4 +1,5 @@
 import Comdex.Lemmas.VaultInv
+import Comdex.Lemmas.VaultCfg
 /-!
 # C01 — CDP vault custody and published totals always match the open vaults
 
@@ -14,9 +15,17 @@ bank sends to the custody account, outside funding and liquidation seizures):
    plus the vaults currently awaiting auction settlement"                                          → `C01.totals_eq`
 * a rejected message changes nothing                                                               → `C01.rejected_no_change`
 
-Scope of the model (Model/Vault.lean): the eleven vault messages, `donate`, `fund`, and the liquidationsV2 seizure
-hand-over. Auction *settlement* (which later reduces the totals) is the subject of C10's model; the correspondence
-harness checks the totals clause on the real chain state across real liquidations and bids.
+* the same clauses when the product configuration CHANGES between messages (`WasmUpdatePairsVault`, asset proposals)
+                                                      → `C01.invL_always_reconfig`, `C01.ledger_eq_reconfig` (via `C01.apply_invL`)
+* D13 (second-generation settlement): `C01.totals_after_settlement`, `C01.totals_eq_settlement_counterexample`
+* D29 (emergency redemption of a stable-mint vault): `C01.custody_after_esm_stable`, `C01.esm_stable_counterexample`
+* first-generation wind-down that re-creates a vault: `C01.wind_down_return_keeps_ledger`
+* D39 (auctionsV2 `TriggerEsm`: second-generation auction that runs out under shutdown): `C01.trigger_esm_effect`,
+  `C01.trigger_esm_counterexample`
+
+Scope of the model (Model/Vault.lean): the eleven vault messages, `donate`, `fund`, the seizure hand-over of both liquidation
+generations, the vault-side bookkeeping of both generations' auction closes, the emergency-shutdown steps of x/esm and of both
+auction generations. See notes/C01.md.
 -/
 namespace Comdex.C01
 open Comdex Comdex.Vault
@@ -224,6 +233,127 @@ theorem wind_down_return_keeps_ledger (cfg : Nat → Option Product) (s s' : Sta
     (h : esmReturn1 s p e vaultId owner cur infl = some s') : Inv cfg s' :=
   (invG_zero cfg s').mp (esmReturn1_inv cfg Gaps.zero s s' p e vaultId owner cur infl hp ((invG_zero cfg s).mpr hinv) hfloor h)
 
+/-! ### Configuration changes in the middle of a history
+
+`Product` is an argument of every handler, so each single-step theorem above already holds for whatever parameters are in
+force at that step. The history theorems above fix one configuration `cfg`; the ones below let it CHANGE between any two
+messages (`Ev.reconfig`: `WasmUpdatePairsVault` — fees, ceiling, floor, min CR, `IsVaultActive` —, x/asset proposals —
+decimals —, new products), the only constraint being what no update path can change: a product keeps its id and its two
+assets (`CfgExt`), and the new parameters are admissible (`CfgOk`). Custody, count, collateral totals and
+"minted ≤ recorded principal" (equality without second-generation settlement) hold after EVERY such history. The C03 limits
+are NOT invariant under reconfiguration (lower the ceiling below what is outstanding, raise the floor above a vault):
+what holds is that no accepted message makes an excess worse — `C03.ceiling_excess_never_increases`,
+`C03.floor_deficit_never_increases`, from `apply_invL` below. -/
+
+/-- one message under relaxed limits: the ledger invariant is kept for ANY bounds `B ≤ floor`, `C ≥ ceiling` that hold
+before — the limits that hold are kept, whether or not they are the configured ones -/
+theorem apply_invL (cfg : Nat → Option Product) (hc : CfgOk cfg) (B C : Nat → Int)
+    (hB0 : ∀ k p, cfg k = some p → 0 ≤ B k) (hB : ∀ k p, cfg k = some p → B k ≤ p.debtFloor)
+    (hC : ∀ k p, cfg k = some p → p.debtCeiling ≤ C k)
+    (G : Gaps) (s : State) (e : Env) (m : Msg) (hm : m.userOk) (hne : m.esmRegular)
+    (hinv : InvL cfg G s) (hl : LimitsBC cfg B C s) (hg : GoodGaps G) :
+    ∃ G', InvL cfg G' (apply cfg s e m) ∧ LimitsBC cfg B C (apply cfg s e m) ∧ GoodGaps G' ∧ (m.notSettle → G' = G) := by
+  cases h : step cfg s e m with
+  | none => exact ⟨G, by simpa [apply, h] using hinv, by simpa [apply, h] using hl, hg, fun _ => rfl⟩
+  | some s' =>
+    have hR := step_relax cfg B C s s' e m hB hC h
+    have hcR : CfgOk (relaxCfg cfg B C) := relaxCfg_ok cfg B C hc hB0 (fun k p hp => by
+      have := (hc k p hp).2.2.2.2.2.2.2; have := hC k p hp; omega)
+    have hinvR : InvG (relaxCfg cfg B C) G s :=
+      (invL_reconfig (relaxCfg_ext cfg B C) G s hinv).withLimits ((limits_relaxCfg cfg B C s).mpr hl)
+    obtain ⟨G', h1, h2, h3⟩ := apply_invG (relaxCfg cfg B C) hcR G s e m hm hne hinvR hg
+    have e1 : apply (relaxCfg cfg B C) s e m = s' := by simp [apply, hR]
+    have e2 : apply cfg s e m = s' := by simp [apply, h]
+    rw [e1] at h1; rw [e2]
+    exact ⟨G', invL_reconfig (relaxCfg_ext' cfg B C) G' s' h1.toL, (limits_relaxCfg cfg B C s').mp h1.2.2.2.2.2, h2, h3⟩
+
+/-- the bounds that hold in ANY well-formed state: 0 below every principal, the larger of ceiling and minted total above -/
+def ceilBound (cfg : Nat → Option Product) (s : State) (k : Nat) : Int :=
+  match cfg k with
+  | some p => if s.minted k ≤ p.debtCeiling then p.debtCeiling else s.minted k
+  | none => 0
+
+theorem limitsBC_any (cfg : Nat → Option Product) (G : Gaps) (s : State) (h : InvL cfg G s) :
+    LimitsBC cfg (fun _ => 0) (ceilBound cfg s) s := by
+  refine ⟨fun v hv _ => (h.1.2.1 v hv).2.2.2.1, fun k hs => ?_⟩
+  unfold ceilBound
+  cases hp : cfg k with
+  | none => simp [hp] at hs
+  | some p => simp only; split <;> omega
+
+/-- one message keeps the ledger part of the invariant from ANY state satisfying it — no assumption on the limits -/
+theorem apply_invL_any (cfg : Nat → Option Product) (hc : CfgOk cfg) (G : Gaps) (s : State) (e : Env) (m : Msg)
+    (hm : m.userOk) (hne : m.esmRegular) (hinv : InvL cfg G s) (hg : GoodGaps G) :
+    ∃ G', InvL cfg G' (apply cfg s e m) ∧ GoodGaps G' ∧ (m.notSettle → G' = G) := by
+  obtain ⟨G', h1, _, h3, h4⟩ := apply_invL cfg hc (fun _ => 0) (ceilBound cfg s) (fun _ _ _ => Int.le_refl 0)
+    (fun k p hp => (hc k p hp).2.2.2.2.1)
+    (fun k p hp => by unfold ceilBound; simp only [hp]; split <;> omega) G s e m hm hne hinv (limitsBC_any cfg G s hinv) hg
+  exact ⟨G', h1, h3, h4⟩
+
+/-- an event of a history with configuration changes -/
+inductive Ev where
+  | msg (e : Env) (m : Msg)
+  | reconfig (cfg' : Nat → Option Product)
+
+def stepC (cs : (Nat → Option Product) × State) : Ev → (Nat → Option Product) × State
+  | .msg e m => (cs.1, apply cs.1 cs.2 e m)
+  | .reconfig cfg' => (cfg', cs.2)
+
+def runC (cs : (Nat → Option Product) × State) (h : List Ev) : (Nat → Option Product) × State := h.foldl stepC cs
+
+/-- admissible histories: users sign, the two excluded shutdown steps do not occur, every reconfiguration keeps the products'
+identity and installs admissible parameters -/
+def EvOk (cfg : Nat → Option Product) : List Ev → Prop
+  | [] => True
+  | .msg _ m :: t => m.userOk ∧ m.esmRegular ∧ EvOk cfg t
+  | .reconfig cfg' :: t => CfgExt cfg cfg' ∧ CfgOk cfg' ∧ EvOk cfg' t
+
+def NoSettleC : List Ev → Prop
+  | [] => True
+  | .msg _ m :: t => m.notSettle ∧ NoSettleC t
+  | .reconfig _ :: t => NoSettleC t
+
+/-- **the ledger invariant holds after every history with configuration changes** -/
+theorem invL_always_reconfig (h : List Ev) (cfg : Nat → Option Product) (hc : CfgOk cfg) (hok : EvOk cfg h)
+    (G : Gaps) (s : State) (hinv : InvL cfg G s) (hg : GoodGaps G) :
+    ∃ G', InvL (runC (cfg, s) h).1 G' (runC (cfg, s) h).2 ∧ GoodGaps G' ∧ CfgOk (runC (cfg, s) h).1 ∧ (NoSettleC h → G' = G) := by
+  induction h generalizing cfg s G with
+  | nil => exact ⟨G, hinv, hg, hc, fun _ => rfl⟩
+  | cons ev t ih =>
+    cases ev with
+    | msg e m =>
+      obtain ⟨hm, hne, hok'⟩ := hok
+      obtain ⟨G1, h1, g1, e1⟩ := apply_invL_any cfg hc G s e m hm hne hinv hg
+      obtain ⟨G2, h2, g2, c2, e2⟩ := ih cfg hc hok' G1 _ h1 g1
+      exact ⟨G2, h2, g2, c2, fun hn => by rw [e2 hn.2, e1 hn.1]⟩
+    | reconfig cfg' =>
+      obtain ⟨hx, hc', hok'⟩ := hok
+      obtain ⟨G2, h2, g2, c2, e2⟩ := ih cfg' hc' hok' G s (invL_reconfig hx G s hinv) hg
+      exact ⟨G2, h2, g2, c2, fun hn => e2 hn⟩
+
+theorem invL_init (cfg : Nat → Option Product) (hc : CfgOk cfg) : InvL cfg Gaps.zero State.init :=
+  ((invG_zero cfg _).mpr (init_inv cfg hc)).toL
+
+/-- **Custody, count, totals under reconfiguration**: after every history in which the product parameters change between
+messages, vault custody of every denom = recorded collateral + unsolicited coins, the vault count = number of open vaults,
+the published collateral total = sum over the records, the published minted total ≤ recorded principal (= without
+second-generation settlement) — all read with the configuration in force at the END of the history. -/
+theorem ledger_eq_reconfig (cfg0 : Nat → Option Product) (hc : CfgOk cfg0) (h : List Ev) (hok : EvOk cfg0 h) :
+    let cfg := (runC (cfg0, State.init) h).1
+    let s := (runC (cfg0, State.init) h).2
+    (∀ d, s.bal vm d = collRecorded cfg s d + s.unsolicited d) ∧ s.length = s.vaults.length ∧
+    (∀ k, s.coll k = collOfProduct s k) ∧ (∀ k, s.minted k ≤ mintedOfProduct s k) ∧
+    (NoSettleC h → ∀ k, s.minted k = mintedOfProduct s k) := by
+  obtain ⟨G', h', g, _, e⟩ := invL_always_reconfig h cfg0 hc hok Gaps.zero State.init (invL_init cfg0 hc) goodGaps_zero
+  obtain ⟨_, hcnt, hcus, htot, _⟩ := h'
+  obtain ⟨g1, g2, g3, g4, _⟩ := g
+  refine ⟨fun d => ?_, ?_, fun k => ?_, fun k => ?_, fun hn k => ?_⟩
+  · have := hcus d; simp only [CustodyAtG, g1 d] at this; simpa using this
+  · simp only [CountOkG, g2] at hcnt; simpa using hcnt
+  · have := (htot k).1; simp only [g3 k] at this; simpa using this
+  · have := (htot k).2; have := g4 k; omega
+  · rw [e hn] at htot; have := (htot k).2; simpa [Gaps.zero] using this
+
 /-! ### Non-vacuity: a concrete configuration and history that satisfies the hypotheses and exercises the clauses -/
 def demoProduct : Product :=
   { id := 1, app := 1, denomIn := 1, denomOut := 3, decIn := 1000000, decOut := 1000000,
@@ -298,6 +428,87 @@ theorem wind_down_return_example :
     let s := runAll demoCfg State.init (demoHistory ++ [({ demoEnv with esm := true }, .esmReturn1 1 10 1200000 1200000)])
     s.locked = [] ∧ s.vaults.map (fun v => (v.id, v.owner, v.amountIn, v.amountOut)) = [(2, 10, 1200000, 800000)] ∧ s.length = 1 ∧
     s.coll 1 = 1200000 ∧ s.minted 1 = 800000 ∧ s.bal vm 1 = 1200007 ∧ s.supply 3 = 800000 := by
+  decide
+
+
+/-! ### auctionsV2 `TriggerEsm` (recorded finding): a second-generation auction that runs out under emergency shutdown -/
+
+/-- **What `TriggerEsm` does to the vault books** (x/auctionsV2/keeper/auctions.go:487-534, modelled as the code is): no
+balance of any account the vault ledger speaks about moves — in particular NOTHING reaches vault custody — and the seized
+vault stays on the awaiting-settlement list (so the step can run again), while the owner's vault is credited with the
+auction's unsold collateral `cur` and remaining target debt `curDebt`, the collateral total falls by the collateral sold and
+supply and minted total fall by what was burnt. -/
+theorem trigger_esm_effect (s s' : State) (p : Product) (e : Env) (vaultId owner : Nat) (cur curDebt fee : Int)
+    (h : esmReturn2 s p e vaultId owner cur curDebt fee = some s') :
+    s'.bal = s.bal ∧ s'.locked = s.locked ∧ s'.unsolicited = s.unsolicited ∧
+    ∃ l ∈ s.locked, l.vaultId = vaultId ∧ e.esm = true ∧
+      s'.supply p.denomOut = s.supply p.denomOut - trigger2Burn l curDebt fee ∧
+      s'.minted p.id = s.minted p.id - trigger2Burn l curDebt fee ∧
+      s'.coll p.id = s.coll p.id - (l.amountIn - cur) ∧
+      (match s.vaults.find? (fun v => v.owner = owner ∧ v.product = p.id) with
+       | some w => s'.vaults = setVault s.vaults { w with amountIn := w.amountIn + cur, amountOut := w.amountOut + curDebt } ∧
+                   s'.length = s.length
+       | none => s'.vaults = s.vaults ++ [{ id := s.nextVault + 1, owner := owner, product := p.id, amountIn := cur,
+                                            amountOut := curDebt, interest := 0, closingFee := 0 }] ∧
+                 s'.length = s.length + 1) := by
+  unfold esmReturn2 at h
+  cases hf : s.locked.find? (fun x => decide (x.vaultId = vaultId)) with
+  | none => simp [hf] at h
+  | some l =>
+    simp only [hf] at h
+    split at h; · cases h
+    next hg =>
+    simp only [not_or, Decidable.not_not] at hg
+    obtain ⟨hm, hid⟩ := find_mem (·.vaultId) s.locked vaultId l hf
+    simp only [Option.some.injEq] at h
+    subst h
+    unfold creditRecord
+    simp only
+    cases hv : s.vaults.find? (fun v => decide (v.owner = owner ∧ v.product = p.id)) with
+    | some w =>
+      refine ⟨by simp, by simp, by simp, l, hm, hid, hg.2.1, by simp [upd1], by simp [upd1], by simp [upd1], by simp⟩
+    | none =>
+      refine ⟨by simp, by simp, by simp, l, hm, hid, hg.2.1, by simp [upd1], by simp [upd1], by simp [upd1], by simp⟩
+
+/-- **Witness.** The demo vault (3 001 000 collateral, principal 2 000 000, 5 interest) is seized by the second generation,
+nobody bids, the app is shut down and the auction runs out: after TWO begin-blocks the owner holds vault 2 with 6 002 000 of
+recorded collateral and 4 600 010 of recorded debt, vault custody holds only the 7 coins donated earlier, the seized
+collateral is still in auction custody and the seized vault is still awaiting settlement. Custody and both totals clauses
+are false; every further block adds the same again. -/
+theorem trigger_esm_counterexample :
+    let ev : Env × Msg := ({ demoEnv with esm := true }, .esmReturn2 1 10 3001000 2300005 300000)
+    let s := runAll demoCfg State.init (demoHistory ++ [ev, ev])
+    s.vaults.map (fun v => (v.id, v.owner, v.amountIn, v.amountOut)) = [(2, 10, 6002000, 4600010)] ∧
+    s.bal vm 1 = 7 ∧ collRecorded demoCfg s 1 = 6002000 ∧ s.bal am 1 = 3001000 ∧ s.locked.length = 1 ∧
+    s.coll 1 = 3001000 ∧ collOfProduct s 1 = 9003000 ∧ s.minted 1 = 2000000 ∧ mintedOfProduct s 1 = 6600010 ∧
+    s.supply 3 = 2000000 ∧ s.length = 1 := by
+  decide
+
+/-! ### Non-vacuity of the reconfiguration theorems: the demo product with the ceiling LOWERED below what is outstanding and
+the floor RAISED above the open vault's principal, in the middle of a history -/
+def demoTight : Product := { demoProduct with debtCeiling := 1500000, debtFloor := 2500000, drawDownFee := 0, minCr := 1200000000000000000 }
+def demoCfgTight : Nat → Option Product := fun pr => if pr = 1 then some demoTight else none
+def demoEvents : List Ev :=
+  [.msg demoEnv (.fund 10 1 5000000), .msg demoEnv (.create 10 1 1 3000000 2000000), .reconfig demoCfgTight,
+   .msg demoEnv (.draw 10 1 1 1 1), .msg demoEnv (.repay 10 1 1 1 600000), .msg demoEnv (.deposit 10 1 1 1 1000)]
+
+example : CfgOk demoCfgTight := by
+  intro pr p h
+  simp only [demoCfgTight] at h
+  split at h
+  · cases h; subst_vars; refine ⟨rfl, ?_⟩; simp [ProductOk, demoTight, demoProduct, Dec.P]
+  · cases h
+example : CfgExt demoCfg demoCfgTight := by
+  intro k p h
+  simp only [demoCfg] at h
+  split at h
+  · cases h; subst_vars; exact ⟨demoTight, by simp [demoCfgTight], rfl, rfl⟩
+  · cases h
+/-- after the reconfiguration the outstanding 2 000 000 exceeds the new ceiling 1 500 000 and lies below the new floor
+2 500 000: the draw is refused (it would raise the excess), the repayment is refused (it would deepen the deficit), the deposit
+is accepted; the ledger equations hold throughout -/
+example : let s := (runC (demoCfg, State.init) demoEvents).2
+    s.minted 1 = 2000000 ∧ s.vaults.map (fun v => (v.amountIn, v.amountOut)) = [(3001000, 2000000)] ∧ s.bal vm 1 = 3001000 := by
   decide
 
 end Comdex.C01
